@@ -63,25 +63,25 @@ type Runner struct {
 	Start    time.Time
 	Deadline time.Time
 
-	mu        sync.Mutex
-	viols     []Viol
-	sigCount  map[string]int
-	counters  map[string]int64
-	samples   []any
-	Exhaust   bool
-	capsHit   []string
-	sweepSeq  int64
-	Rule      string
-	Assume    []string
-	Extra     map[string]any
-	evals     atomic.Int64
-	nontriv   atomic.Int64
-	stop      atomic.Bool
-	workers   []*Worker
-	slots     []byte
-	ReplayFn  func(v *Viol) (reproduced bool, detail string)
-	distinct  sync.Map
-	distinctN atomic.Int64
+	mu          sync.Mutex
+	viols       []Viol
+	sigCount    map[string]int
+	counters    map[string]int64
+	samples     []any
+	Exhaust     bool
+	capsHit     []string
+	sweepSeq    int64
+	Rule        string
+	Assume      []string
+	Extra       map[string]any
+	evals       atomic.Int64
+	nontriv     atomic.Int64
+	stop        atomic.Bool
+	workers     []*Worker
+	slots       []byte
+	ReplayFn    func(v *Viol) (reproduced bool, detail string)
+	distinct    sync.Map
+	distinctN   atomic.Int64
 	harnessErrs []string
 	// MC: report the model-checking evidence keys (states, transitions, traces) from the counters of the same names.
 	MC bool
